@@ -3,6 +3,7 @@ import TantivyModel.Proofs.Columnar.LinearColumn
 import TantivyModel.Proofs.Columnar.RangeU32
 import TantivyModel.Proofs.Columnar.RangeLookupMain
 import TantivyModel.Proofs.Columnar.CompactGaps
+import TantivyModel.Proofs.Columnar.CompactRange
 import TantivyModel.Proofs.Columnar.StackMissing
 import TantivyModel.Proofs.Columnar.Writer
 import TantivyModel.Proofs.Columnar.OptRankSelect
@@ -225,6 +226,25 @@ theorem C08_compact_space_order_preserving (vals : List Nat) (hs : vals.Pairwise
   intro v hvm
   obtain ⟨c, h1, h2, h3, h4⟩ := toCompactFrom_spec _ hv 1 v (hc v hvm)
   exact ⟨c, h1, h2, by omega, h4⟩
+
+/-- range lookup on a compact-space column (`CompactSpaceDecompressor::get_row_ids_for_value_range`):
+the u128 query range is converted to a compact range — an end that is covered maps to its compact
+value, a start in a gap moves up to the next range's `compact_start`, an end in a gap moves down
+to the previous range's `compact_end`, both ends in the same gap (or an empty range) match nothing
+— and the positions whose compact value lies in it are exactly the positions of `s..e` whose
+original value lies in `lo..=hi`. -/
+theorem C08_compact_space_range_lookup (vals : List Nat) (hs : vals.Pairwise (· < ·)) (hmax : ∀ v ∈ vals, v ≤ U128MAX)
+    (sel : List (Nat × Nat)) (hsub : sel.Sublist (allGaps vals)) (hne : sel ≠ [])
+    (col : List Nat) (hcol : ∀ v ∈ col, v ∈ vals) (lo hi s e : Nat) :
+    compactRangeRows (coveredOf sel) (col.map (fun v => (toCompact (coveredOf sel) v).getD 0)) lo hi s e
+      = (List.range' s (min e col.length - s)).filter (fun i => decide (lo ≤ col.getD i 0) && decide (col.getD i 0 ≤ hi)) := by
+  obtain ⟨hv, hc⟩ := C08_compact_space_covers vals hs hmax sel hsub hne
+  exact compactRangeRows_spec _ hv col (fun v hvm => hc v (hcol v hvm)) lo hi s e
+
+example : compactRange [(5, 100), (200, 300)] 101 199 = none
+    ∧ compactRange [(5, 100), (200, 300)] 50 250 = some (46, 147)
+    ∧ compactRange [(5, 100), (200, 300)] 150 1000 = some (97, 197)
+    ∧ compactRangeRows [(5, 100), (200, 300)] [46, 97, 1, 147] 60 200 0 4 = [1] := by decide
 
 example : allGaps [5, 6, 100, 2 ^ 128 - 1] = [(0, 4), (7, 99), (101, 2 ^ 128 - 2)] := by decide
 example : coveredOf [(0, 4), (101, 2 ^ 128 - 2)] = [(5, 100), (2 ^ 128 - 1, 2 ^ 128 - 1)]
